@@ -341,6 +341,13 @@ int main (void)
         c->stream_id = (guint) sid;
         co->local_candidates = g_slist_append (co->local_candidates, c);
         printf ("ok"); end_line ();
+      } else if (!strcmp (w[1], "rm") && n == 4) {
+        /* remove a stream of the generating (a) or the parsing (b) agent: stream ids are never reused, so the ids of
+         * the remaining streams are no longer 1..n */
+        unsigned long long sid;
+        if (!num (w[3], 0xffffffffULL, &sid) || (strcmp (w[2], "a") && strcmp (w[2], "b"))) { puts ("bad-op"); continue; }
+        nice_agent_remove_stream (w[2][0] == 'a' ? A : B, (guint) sid);
+        printf ("ok"); end_line ();
       } else if (!strcmp (w[1], "forcerelay") && n == 3) {
         unsigned long long v;
         if (!num (w[2], ~0ULL, &v)) { puts ("bad-op"); continue; }
